@@ -97,6 +97,7 @@ type ContractStore struct {
 	Wire   []string
 	Axioms []*Axiom
 	WireIgnore map[string][]string // type key -> field paths exempt from the inverse check
+	WireOrder  map[string][]string // type -> specified transmission order of its fields
 }
 
 type Axiom struct {
@@ -171,7 +172,7 @@ func (cs *ContractStore) loadText(file, pkgPath string, lines []string) error {
 		if j := strings.IndexAny(t, " \t"); j >= 0 {
 			first = t[:j]
 		}
-		isStart := clauseKeywords[first] || first == "func" || first == "spec" || first == "lemma" || first == "package" || first == "const" || first == "wire" || first == "axiom" || first == "wire-ignore"
+		isStart := clauseKeywords[first] || first == "func" || first == "spec" || first == "lemma" || first == "package" || first == "const" || first == "wire" || first == "axiom" || first == "wire-ignore" || first == "wire-order"
 		if !isStart && len(stmts) > 0 {
 			stmts[len(stmts)-1].text += " " + t
 			continue
@@ -286,6 +287,18 @@ func (cs *ContractStore) loadText(file, pkgPath string, lines []string) error {
 			}
 			k := shortName(pkgPath) + "." + parts[0]
 			cs.WireIgnore[k] = append(cs.WireIgnore[k], parts[1])
+			cur = nil
+		case "wire-order":
+			// wire-order <Type> <field> <field> ...: the specified order in which the encoder
+			// transmits the fields of the type
+			parts := strings.Fields(rest)
+			if len(parts) < 2 {
+				return fmt.Errorf("%s: wire-order needs a type and its fields", where)
+			}
+			if cs.WireOrder == nil {
+				cs.WireOrder = map[string][]string{}
+			}
+			cs.WireOrder[shortName(pkgPath)+"."+parts[0]] = parts[1:]
 			cur = nil
 		case "wire":
 			cs.Wire = append(cs.Wire, pkgPath+"\x00"+rest)
